@@ -89,7 +89,8 @@ def entity(kind, path):
     if kind == 'func':
         return [D.func(single(I), 'fn' + s, [arg(I, 'a')]),
                 D.func(single(I), 'fn' + s, [arg(T('double'), 'x'), arg(T('string'), 'name', '"n"')]),
-                D.func(single(T('void')), 'other' + s, [])]
+                D.func(single(T('void')), 'other' + s, []),
+                D.func(single(I), 'pickle', [arg(I, 'protocol' + s)])]
     if kind == 'tfunc':
         return [D.func(single(T('T')), 'tf' + s, [arg(T('T', 1, '&'), 'a'), arg(I, 'k', '2')], tpl=[D.tparam('T', [I, T('ns::Pose')])])]
     if kind == 'var':
